@@ -5,7 +5,7 @@ State space (DESIGN.md §3 C04): every (program, configuration) pair with
                  species, reverse pairs, equal stoichiometry with another constant)
   configuration  builder {get_odesys, _create_odesys} x parameter mode {numbers inlined, numbers + include_params=False,
                  unique_keys inlined/free, string-named free/inlined, MassAction.fk free/inlined} x substitution {none,
-                 number for the first / last constant, Expr, Expr with its own unique key, number for the feed ratio}
+                 number for the first / last / both end constants, Expr, Expr with its own unique key, number for the feed ratio}
                  x stirred tank {off, on} x substance order {sorted, explicit unsorted OrderedDict, extra substance that
                  occurs in no reaction}; bounded by the number of dimensions deviating from the builder's default.
 Oracle (mc/ref/massaction.py): names == substance order; set(param_names) == expected free keys; after binding every
@@ -40,7 +40,7 @@ META = dict(
 ATOM = dict(A=5, B=7, C=11, D=13, Z=17)
 KIN = [31, 37, 41, 43, 47, 53, 59, 61, 67, 71, 73, 79]  # value of constant j when it is inlined
 KFREE = [83, 89, 97, 101, 103, 107, 109, 113, 127, 131, 179, 181]  # value bound to the free parameter 'k<j>'
-SUBV = 211  # numeric substitution for a rate constant
+SUBV, SUBV2 = 211, 239  # numeric substitutions for rate constants
 AVAL, A1FREE, TVAL = 223, 227, 229  # Expr substitution k := a*T
 FRFREE, FRSUB = 137, 233
 FC = dict(A=139, B=149, C=151, D=157, Z=163)
@@ -61,7 +61,7 @@ POOL = [
 ]
 
 PMODES = [("num", True), ("num", False), ("uk", True), ("uk", False), ("named", False), ("fk", False), ("named", True), ("fk", True)]
-SUBSTS = ["none", "numfirst", "numlast", "expr", "exprU", "frnum"]
+SUBSTS = ["none", "numfirst", "numlast", "numboth", "expr", "exprU", "frnum"]
 ORDERS = ["sorted", "unsorted", "extra"]
 
 
@@ -91,7 +91,7 @@ def configs(maxdev, with_trivially_refused=False):
                 for cstr in (False, True):
                     for order in ORDERS:
                         dev = (builder != "get") + (pm != (("num", True) if builder == "get" else ("named", False))) + (subst != "none") + cstr + {"sorted": 0, "unsorted": 1, "extra": 2}[order]
-                        if not with_trivially_refused and ((pm[0] == "num" and subst in ("numfirst", "numlast", "expr", "exprU")) or (subst == "frnum" and not cstr)):
+                        if not with_trivially_refused and ((pm[0] == "num" and subst in ("numfirst", "numlast", "numboth", "expr", "exprU")) or (subst == "frnum" and not cstr)):
                             continue
                         if dev <= maxdev:
                             out.append((dev, dict(builder=builder, style=pm[0], ip=pm[1], subst=subst, cstr=cstr, order=order)))
@@ -170,13 +170,13 @@ def build(cfg, idxs, rts):
     s = cfg["subst"]
     k0, k1 = _kname(idxs[0]), _kname(idxs[-1])
     if cfg["builder"] == "get":
-        subs = {"none": None, "numfirst": {k0: SUBV}, "numlast": {k1: SUBV}, "expr": {k0: TK([AVAL])}, "exprU": {k0: TK([AVAL], unique_keys=("a1",))}, "frnum": {"feedratio": FRSUB}}[s]
+        subs = {"none": None, "numfirst": {k0: SUBV}, "numlast": {k1: SUBV}, "numboth": {k1: SUBV2, k0: SUBV} if k0 != k1 else {k0: SUBV}, "expr": {k0: TK([AVAL])}, "exprU": {k0: TK([AVAL], unique_keys=("a1",))}, "frnum": {"feedratio": FRSUB}}[s]
         odesys, extra = get_odesys(rsys, include_params=cfg["ip"], substitutions=subs, cstr=cfg["cstr"])
     else:
         kw = {}
         if cfg["cstr"]:
             kw["rates_kw"] = dict(cstr_fr_fc=("feedratio", OrderedDict((sk, "fc_" + sk) for sk in rsys.substances)))
-        pe = {"none": None, "numfirst": {k0: SUBV}, "numlast": {k1: SUBV}, "expr": {k0: TK([AVAL])}}[s]
+        pe = {"none": None, "numfirst": {k0: SUBV}, "numlast": {k1: SUBV}, "numboth": {k1: SUBV2, k0: SUBV} if k0 != k1 else {k0: SUBV}, "expr": {k0: TK([AVAL])}}[s]
         if pe:
             kw["parameter_expressions"] = pe
         odesys, extra = _create_odesys(rsys, **kw)
@@ -230,6 +230,9 @@ def expectation(cfg, idxs, rts):
             substituted[k0] = ("num", SUBV)
         elif s == "numlast":
             substituted[k1] = ("num", SUBV)
+        elif s == "numboth":
+            substituted[k1] = ("num", SUBV2)
+            substituted[k0] = ("num", SUBV)
         elif s == "expr":
             substituted[k0] = ("aT", AVAL)
         elif s == "exprU":
